@@ -209,6 +209,98 @@ pub fn bind_declared(
     Ok(env)
 }
 
+/// The recorded script, the execution as equalities on the declared constants, and a `get-value` of every
+/// Bool / bit-vector definition go to z3 and cvc5: both must accept the script, answer `sat` and
+/// return the values the reference front end computed (guards smtref; disagreement = exit 2).
+fn second_opinion(
+    ctx: &Context,
+    script: &[String],
+    sc: &Scopes,
+    bound: &smtref::ValEnv,
+    all: &smtref::ValEnv,
+    rec: &mut Recorder,
+) -> Result<(), Failure> {
+    if script.iter().any(|l| !l.is_ascii()) {
+        rec.exclude("second opinion: non-ASCII symbol name");
+        return Ok(());
+    }
+    let mut text = String::from(crate::second::prelude());
+    for l in script {
+        if l.starts_with("(set-logic") || l.starts_with("(set-option") {
+            continue;
+        }
+        text.push_str(l);
+        text.push('\n');
+    }
+    let mut names: Vec<&String> = bound.keys().collect();
+    names.sort();
+    for n in names {
+        text.push_str(&format!("(assert (= {} {}))\n", smtref::print_symbol(n), smtref::print_value(&bound[n], 0)));
+    }
+    text.push_str("(check-sat)\n");
+    let mut asked: Vec<&String> = all.iter().filter(|(k, v)| matches!(v, smtref::SVal::B(..)) && sc.get(k).is_some()).map(|(k, _)| k).collect();
+    asked.sort();
+    asked.truncate(40);
+    if !asked.is_empty() {
+        text.push_str(&format!("(get-value ({}))\n", asked.iter().map(|n| smtref::print_symbol(n)).collect::<Vec<_>>().join(" ")));
+    }
+    let non_literal_const_array = script.iter().any(|l| {
+        l.match_indices("(as const").any(|(p, _)| {
+            // `((as const <sort>) <element>)`: the element follows the closing parenthesis of `(as const ...)`
+            let rest = &l[p..];
+            let mut depth = 0i32;
+            let mut end = 0;
+            for (i, ch) in rest.char_indices() {
+                if ch == '(' { depth += 1 } else if ch == ')' { depth -= 1; if depth == 0 { end = i; break } }
+            }
+            !rest[end + 1..].trim_start().starts_with('#')
+        })
+    });
+    let _ = ctx;
+    let ops = crate::second::ask(&text).map_err(|m| Failure::new("harness/second-opinion/spawn", m))?;
+    for o in ops {
+        if o.timed_out {
+            rec.exclude("second opinion: solver hit its time limit");
+            continue;
+        }
+        if o.solver == "cvc5" && non_literal_const_array {
+            rec.exclude("second opinion: cvc5 wants a literal under `as const`");
+            continue;
+        }
+        rec.label(&format!("second-opinion:{}", o.solver));
+        let bad = |why: &str| {
+            Failure::new(
+                format!("harness/second-opinion/{}/{}", o.solver, why),
+                format!("{} answered `{}` to\n{}", o.solver, o.output.trim(), text),
+            )
+        };
+        if !o.accepted {
+            return Err(bad("rejects-what-smtref-accepts"));
+        }
+        if o.replies.first().and_then(|r| r.sym()) != Some("sat") {
+            return Err(bad("not-sat"));
+        }
+        if asked.is_empty() {
+            continue;
+        }
+        let Some(pairs) = o.replies.get(1).and_then(|r| r.list()) else { return Err(bad("reply-shape")) };
+        if pairs.len() != asked.len() {
+            return Err(bad("reply-shape"));
+        }
+        for (n, p) in asked.iter().zip(pairs.iter()) {
+            let Some(p) = p.list().filter(|p| p.len() == 2) else { return Err(bad("reply-shape")) };
+            let got = smtref::eval(&p[1], &Scopes::new(), &smtref::ValEnv::new(), &mut vec![]).map_err(|_| bad("reply-value"))?;
+            if !smtref::sval_eq(&got, &all[*n]) {
+                return Err(Failure::new(
+                    format!("harness/second-opinion/{}/value-differs-from-reference", o.solver),
+                    format!("{}: {} says {}, smtref {}\n{}", n, o.solver, smtref::print_value(&got, 0), smtref::print_value(&all[*n], 0), text),
+                ));
+            }
+        }
+    }
+    Ok(())
+}
+
 impl Prop for C04 {
     fn id(&self) -> &'static str {
         "C04"
@@ -301,7 +393,8 @@ impl Prop for C04 {
         for b in sys.bad_states.iter() {
             signals.push(("bad".into(), *b));
         }
-        for _ in 0..4 {
+        let ask_real_solvers = !rec.frozen && hash_bytes(tape) % 300 == 5 && crate::second::available();
+        for round in 0..4 {
             let ex = random_execution(&sim, &mut rng, start, depth).map_err(|m| Failure::new("harness/c04", m))?;
             let env = match bind_declared(ctx, &sys, &declared, &ex, start) {
                 Ok(e) => e,
@@ -312,12 +405,16 @@ impl Prop for C04 {
                     ));
                 }
             };
+            let bound = env.clone();
             let mut env = env;
             if let Err(m) = smtref::eval_definitions(&sc, &mut env) {
                 return Err(Failure::new(
                     format!("encoding/{}/definition-not-evaluable", entry),
                     format!("{}\nsystem: {}\nscript:\n{}", m, text, script.join("\n")),
                 ));
+            }
+            if ask_real_solvers && round == 0 {
+                second_opinion(ctx, &script, &sc, &bound, &env, rec)?;
             }
             for j in 0..=depth {
                 let step = start + j;
